@@ -137,9 +137,10 @@ static inline void* sim_alloc(size_t size, size_t align, bool nothrow)
 		}
 		if (a.failAt != 0 && a.ordinal == a.failAt)
 		{
-			a.failFired = true;
 			ev(EV_A_FAIL, a.ordinal);
+			// a failed nothrow request is an answer the caller asked for (std::stable_sort's buffer, ...), not a fault that must surface
 			if (nothrow) return nullptr;
+			a.failFired = true;
 			throw std::bad_alloc();
 		}
 	}
